@@ -64,10 +64,15 @@ def gen_prec(seed, shard, n):
                        maxdec=max(abs(dec), abs(float(d1))))
         # proper motion
         mua, mud = rng.uniform(-10, 10) / 3600.0, rng.uniform(-10, 10) / 3600.0       # degrees per year
+        zc = rng.random()
+        if zc < 0.15:
+            mua = 0.0                      # motion in declination only
+        elif zc < 0.3:
+            mud = 0.0                      # motion in right ascension only
         dty = rng.choice([10.0, 50.0, 100.0])
         if abs(dec) < 80:
             # the same start Angle objects are reused for every call, as an ephemeris loop would
-            for fn, tag in ((C.precession_equatorial, "eq"), (C.precession_ecliptical, "ec")):
+            for fn, tag in ((C.precession_equatorial, "eq"), (C.precession_ecliptical, "ec"), (C.precession_newcomb, "nc")):
                 sa, sd, pa, pd_ = A(ra), A(dec), A(mua), A(mud)
                 res = []
                 for kk in (1, 2):
